@@ -1,5 +1,6 @@
 SPECIFICATION Spec
-CONSTANT MaxRem = 48
+CONSTANT MaxRem = 20
+CONSTANT FieldMax = 36
 CONSTANT LOff = {}
 INVARIANTS TypeOK Safe IndInv
 CHECK_DEADLOCK FALSE
